@@ -1033,10 +1033,27 @@ fn op_privenc(f: &mut Fields) -> R {
     let time = f.num::<u32>()?;
     let count = f.num::<usize>()?;
     let engine_id = f.hex()?;
+    // optional `seed=N`: start value of the salt counter (needs the cfg(gufo_snmp_verif) hook in /repo;
+    // build.sh sets gsv_salt_hook when the hook is present, otherwise the field is ignored)
+    let mut seed: Option<u64> = None;
+    {
+        let mut g = Fields(f.0.clone());
+        if let Ok(t) = g.s() {
+            if let Some(v) = t.strip_prefix("seed=") {
+                seed = Some(num::<u64>(v)?);
+                f.s()?;
+            }
+        }
+    }
     let pdu = parse_req(f)?;
     f.end()?;
     let mut k = PrivKey::new(alg)?;
     k.as_localized(&key)?;
+    #[cfg(gsv_salt_hook)]
+    if let Some(v) = seed {
+        k.set_salt_value(v);
+    }
+    let _ = seed;
     let scoped = ScopedPdu {
         engine_id: &engine_id,
         pdu,
